@@ -17,7 +17,7 @@ from vt.e1.values import (SArr, SList, STT, SNum, SMaxRank, SInf, INF, SNone, NO
                           fresh, fresh_fun, zi, zb, as_conc, is_conc_int, val_ite, arr_ite)
 from vt.e1 import npmodel
 from vt.e1 import heap
-from vt.e1.values import is_tag, SObj
+from vt.e1.values import is_tag, SObj, SArrN
 
 
 class Obligation:
@@ -106,6 +106,9 @@ def _clone(v, memo):
             return memo[id(v)]
         n = SList(v.ref, v.length, v.fn, None, v.kind)
         n.transients = dict(getattr(v, 'transients', {}) or {})
+        for extra in ('slice_of', 'split_points'):
+            if extra in v.__dict__:
+                setattr(n, extra, v.__dict__[extra])
         memo[id(v)] = n
         if v.items is not None:
             n.items = [_clone(x, memo) for x in v.items]
@@ -734,6 +737,11 @@ class Executor:
             n = SList(v.ref, v.length, v.fn, None if v.items is None else list(v.items), v.kind)
             self.havoc_list(n, state, grows=True)
             return n
+        if getattr(self.ctx.contract, 'var_kinds', {}).get(nm) == 'array-any' and nm in getattr(self, '_rebound', ()):
+            # declared by the contract: an array whose rank changes between iterations - only its size is tracked
+            a = SArrN(fresh(nm + '_size'), fresh(nm + '_ndim'), fresh(nm + '_cx', 'bool'), fresh(nm + '_buf'), None)
+            state.assume(a.size >= 0)
+            return a
         if getattr(self.ctx.contract, 'var_kinds', {}).get(nm) == 'optional-tt' and nm in getattr(self, '_rebound', ()):
             # declared by the contract: None before the loop, possibly a tensor train after some iteration
             from vt.e1.contract import mk_fresh_tt
@@ -949,6 +957,14 @@ class Executor:
             if obj.name == 'np' and a == 'random':
                 return SModule('np.random')
             return ('modfunc', obj.name, a)
+        if isinstance(obj, SArrN):
+            if a == 'shape' and obj.shape is not None:
+                return obj.shape
+            if a == 'ndim':
+                return obj.ndim
+            if a in ('copy',):
+                return ('method', obj, a)
+            raise Unsupported('attribute %s of an array of symbolic rank at line %d' % (a, node.lineno))
         if isinstance(obj, SArr):
             if a == 'shape':
                 if not is_conc_int(obj.ndim):
@@ -1042,7 +1058,15 @@ class Executor:
             src.to_fn()
             f = src.fn
             res = SList(state.alloc(), length, fn=lambda j, f=f, a=a: f(a + j), kind=base.kind)
-            res.slice_of = (src, a, z3.simplify(a + length))
+            so = getattr(base, 'slice_of', None)
+            if so is not None:
+                # a slice of a slice is a slice of the root list (products over it are products of the root list)
+                res.slice_of = (so[0], z3.simplify(so[1] + a), z3.simplify(so[1] + a + length))
+            else:
+                res.slice_of = (src, a, z3.simplify(a + length))
+            sp = getattr(base, 'split_points', None)
+            if sp is not None:
+                sp.extend([a, z3.simplify(a + length)])
             return res
         # reversed full/partial slice  x[a:b:-1] : only the idiom  x[...][::-1] (lo, hi None)
         if lo is not None or hi is not None:
@@ -1291,6 +1315,28 @@ class Executor:
         return SList(state.alloc(), z3.If(zi(n) > 0, zi(n), z3.IntVal(0)), fn=lambda j, x=x: x, kind=kind)
 
     def ex_ListComp(self, node, state):
+        if len(node.generators) == 2 and not any(g.ifs for g in node.generators):
+            # [e for i in range(n) for j in range(c)]: only the length is tracked (an opaque list of integers)
+            ns = []
+            for g in node.generators:
+                if not (isinstance(g.iter, ast.Call) and isinstance(g.iter.func, ast.Name) and g.iter.func.id == 'range' and len(g.iter.args) == 1):
+                    raise Unsupported('nested comprehension at line %d' % node.lineno)
+                ns.append(zi(self.ev(g.iter.args[0], state)))
+            length = z3.If(z3.And(ns[0] > 0, ns[1] > 0), ns[0] * ns[1], z3.IntVal(0))
+            v0, v1 = node.generators[0].target, node.generators[1].target
+            if not (isinstance(v0, ast.Name) and isinstance(v1, ast.Name)):
+                raise Unsupported('comprehension target at line %d' % node.lineno)
+            I, J = fresh(v0.id), fresh(v1.id)
+            sub = state.clone()
+            sub.env[v0.id], sub.env[v1.id] = I, J
+            sub.assume(z3.And(I >= 0, I < ns[0], J >= 0, J < ns[1]))
+            T = self.ev(node.elt, sub)
+            if not (is_conc_int(T) or isinstance(T, z3.ArithRef)):
+                raise Unsupported('nested comprehension of non-integers at line %d' % node.lineno)
+            T, c = zi(T), ns[1]
+            # element number q belongs to the outer index q // c and the inner index q % c
+            return SList(state.alloc(), z3.simplify(length), kind='int',
+                         fn=lambda q, T=T, I=I, J=J, c=c: z3.substitute(T, (I, zi(q) / c), (J, zi(q) % c)))
         if len(node.generators) != 1 or node.generators[0].ifs:
             raise Unsupported('nested/filtered comprehension at line %d' % node.lineno)
         g = node.generators[0]
